@@ -136,21 +136,21 @@ Fixpoint nodupZ (l : list Z) : bool :=
   match l with [] => true | x :: r => negb (existsb (Z.eqb x) r) && nodupZ r end.
 
 (* every array element takes at least one byte on the wire (the guard the decoder
-   relies on), element sizes are sane, int widths are 1/2/4/8, no zero-size marker
+   relies on) and is not a zero-size marker, element sizes are sane, int widths are 1/2/4/8, no zero-size marker
    among the regular fields of a flexible struct (the encoder would skip what the
    decoder reads), tag ids are distinct and non-negative except the marker's -1,
    tagged fields only in flexible messages. *)
 Fixpoint schema_ok (flex : bool) (t : ty) {struct t} : bool :=
   match t with
   | TInt w => int_width_ok w
-  | TArray _ esize e => (1 <=? min_size flex e)%N && (1 <=? esize)%N && (esize <=? 65536)%N && schema_ok flex e
+  | TArray _ esize e => (1 <=? min_size flex e)%N && (1 <=? esize)%N && (esize <=? 65536)%N && negb (is_marker e) && schema_ok flex e
   | TStruct fields tagged =>
       (fix go (l : list ty) : bool :=
          match l with [] => true | x :: r => negb (flex && is_marker x) && schema_ok flex x && go r end) fields
       && (fix go (l : list (Z * ty)) : bool :=
             match l with
             | [] => true
-            | (i, x) :: r => (if is_marker x then Z.eqb i (-1) else (0 <=? i)%Z) && schema_ok flex x && go r
+            | (i, x) :: r => (if is_marker x then Z.eqb i (-1) else (0 <=? i)%Z && (i <? ZM31)%Z) && schema_ok flex x && go r
             end) tagged
       && nodupZ (map fst tagged)
       && (flex || match tagged with [] => true | _ => false end)
